@@ -1,5 +1,6 @@
-(* Extraction of the C17 executable model (ExtrOcamlBasic only; nat stays an inductive type). *)
-From Coq Require Import List Extraction ExtrOcamlBasic.
+(* Extraction of the C17 executable model (ExtrOcamlBasic only; nat stays an inductive type).
+   Z.of_nat is extracted only so that the shared OCaml glue (ocaml/zio.ml.inc), which mentions z/positive, compiles. *)
+From Coq Require Import List ZArith Extraction ExtrOcamlBasic.
 From Kenlm Require Import C17.PCQueueOps Gen.PCQueueProg C17.PCQueueModel.
 Extraction Language OCaml.
-Extraction "extracted/c17_model.ml" init_st step run replay enabled finished consumed_by stored_by produce_prog consume_prog.
+Extraction "extracted/c17_model.ml" init_st step run replay enabled finished consumed_by returned_by stored_by produce_prog consume_prog Z.of_nat.
